@@ -18,7 +18,7 @@ ok = note('reflexive x', x == x) and note('reflexive y', y == y) and note('symme
 """
 
 
-def pair_case(cid, params, pre, build_x, build_y, behaviour, budget=None, stubs=()):
+def pair_case(cid, params, pre, build_x, build_y, behaviour, budget=None, stubs=(), known=None):
     """x, y built from atoms; if x == y then behaviour(x) == behaviour(y) on the probe doc."""
     body = f"""
 x = {build_x}
@@ -28,7 +28,7 @@ if e_xy:
     ok = ok and same('behaviour of equal objects', {behaviour.replace('OBJ', 'x')}, {behaviour.replace('OBJ', 'y')})
 return ok
 """
-    return mk_case(cid, params, body, pre=pre, budget=budget, stubs=stubs)
+    return mk_case(cid, params, body, pre=pre, budget=budget, stubs=stubs, known=known)
 
 
 def triple_case(cid, params, pre, build, budget=None):
@@ -205,6 +205,12 @@ return ok
     out.append(pair_case("c14.patharg.bound.leaf", iu1, pre1, "Value.equal_to(DataPath('a'))", "Value.equal_to(DataPath('a', source_data={'a': a}))", pa_beh))
     out.append(pair_case("c14.patharg.bound.and", iu1, pre1, "Value.is_instance(int) & Value.equal_to(DataPath('a'))",
                          "Value.is_instance(int) & Value.equal_to(DataPath('a', source_data={'a': a}))", pa_beh))
+    # equality of leaves compares arguments with ==, so an int and an equal float argument give equal conditions; where the
+    # callable is sensitive to the number's type (range() needs ints) equal conditions then behave differently
+    out.append(pair_case("c14.leaf.in_range.float_bound", [("a", "int"), ("u", "int")], ["I64(a, u) and 0 <= 5 - a <= 3"], "Value.in_range(a, 5)", "Value.in_range(a, 5.0)",
+                         "OBJ.filter([u, 4]).result", known="C14-eq-ignores-number-type"))
+    out.append(pair_case("c14.leaf.not_in_range.float_bound", [("a", "int"), ("u", "int")], ["I64(a, u) and 0 <= 5 - a <= 3"], "Value.not_in_range(a, 5)", "Value.not_in_range(a, 5.0)",
+                         "OBJ.filter([u, 9]).result", known="C14-eq-ignores-number-type"))
     # the same rules in another order (ties in path length keep the given order; with casts a later rule sees the
     # values an earlier one cast): if such schemas compare equal they must judge alike
     cast_beh = "(lambda t: (t.is_valid, t.num_failures, t.num_rules_tested, tx(t.cast_data)))(OBJ.validate({'a': '5', 'b': u, 'c': 'x'}))"
